@@ -34,6 +34,8 @@ Clauses(ev) ==
    <<"C12.refusal", CASE ev.a = "set" -> (ev.ok <=> ~Conflict(contents, ev.k))
                       [] ev.a = "del" -> (~ev.ok => ModelVal(contents, ev.k) = NoVal)
                       [] ev.a = "delsub" -> (~ev.ok => ~startsSome)>>,
+   \* a call that raises raises NodeOverrideError (anything else is logged as crash, with ok = FALSE)
+   <<"C12.refusal-type", ~ev.crash>>,
    <<"C12.raise-unchanged", ~ev.ok => obs = root>>,
    <<"C12.root", ev.ok => obs = BCanon(AsMap(IF last'.ok THEN contents'
                                                ELSE IF ev.a = "delsub"
